@@ -6,8 +6,11 @@
     brg <routing> <7 hdr fields> <seq> <hex payload>                  -> ok <hex> | <error tag>
     hist <routing|routing|…> <7 hdr fields> <seq> <hex payload>       -> ok <hex> | <error tag>
          (ONE Target re-routed through the paths in this order, then the request)
-    dec <hex frame>                                                   -> ok <hex> | <error tag>
-    rcv <7 hdr fields> <flags> <hex;hex;…>                            -> none | ok <hex> | <error tag>
+    dec <variant> <verify 0|1> <hex frame>                            -> ok <hex> | <error tag>
+    rcv <variant> <bridge> <7 hdr fields> <flags> <hex;hex;…>         -> none | ok <hex> | <error tag>
+    cls <variant> <bridge> <7 hdr fields> <flags> <hex frame>         -> ack | hit <hex> | noise | err <error tag>
+         variant = a (as shipped: command byte only) | r (repaired: netFn + command, verified, only when bridged)
+         bridge  = - (request not bridged) | <seq> (sequence number of the outstanding Send Message)
   Spec (PyIpmi.Spec.Bridges / Spec.Wire, the oracle):
     peel <n> <hex frame>             -> some <hop;hop;…|-> <hex inner> | none     hop = bridge:src:channel:tracking:seq
     parse <hex frame>                -> some <7 fields> <hex data> | none
@@ -57,6 +60,18 @@ def showBytes9 : Outcome (List Nat) → String
   | .ok bs => "ok " ++ toHex bs
   | e => e.tag
 
+def parseVariant (s : String) : Option Variant :=
+  if s == "a" then some .asShipped else if s == "r" then some .repaired else none
+
+def parseBridge (s : String) : Option (Option Hdr) :=
+  if s == "-" then some none else s.toNat?.map fun n => some (bridgeHdr n)
+
+def showClass : RxClass → String
+  | .ack => "ack"
+  | .hit d => "hit " ++ toHex d
+  | .noise => "noise"
+  | .err e => "err " ++ e.tag
+
 def showHop (h : Hop) : String := s!"{h.bridge}:{h.src}:{h.channel}:{h.tracking}:{h.seq}"
 
 def handleC09 (line : String) : String :=
@@ -74,17 +89,21 @@ def handleC09 (line : String) : String :=
     match (rs.splitOn "|").mapM parseRouting, parseHdr9 [a, b, c, d, e, f, g], seq.toNat?, ofHex hx with
     | some paths, some h, some sq, some p => showBytes9 ((({} : Target).reroute paths).request h p sq)
     | _, _, _, _ => "bad-op"
-  | ["dec", hx] =>
-    match ofHex hx with
-    | some fr => showBytes9 (decodeBridged fr)
-    | none => "bad-op"
-  | ["rcv", a, b, c, d, e, f, g, fl, frs] =>
-    match parseHdr9 [a, b, c, d, e, f, g], parseFlags9 fl, parseFrames frs with
-    | some h, some fl, some frames =>
-      match recvBridged h fl frames with
+  | ["dec", v, vf, hx] =>
+    match parseVariant v, ofHex hx with
+    | some v, some fr => showBytes9 (decodeBridged v (vf == "1") fr)
+    | _, _ => "bad-op"
+  | ["rcv", v, br, a, b, c, d, e, f, g, fl, frs] =>
+    match parseVariant v, parseBridge br, parseHdr9 [a, b, c, d, e, f, g], parseFlags9 fl, parseFrames frs with
+    | some v, some br, some h, some fl, some frames =>
+      match recvBridged v br h fl frames with
       | none => "none"
       | some o => showBytes9 o
-    | _, _, _ => "bad-op"
+    | _, _, _, _, _ => "bad-op"
+  | ["cls", v, br, a, b, c, d, e, f, g, fl, hx] =>
+    match parseVariant v, parseBridge br, parseHdr9 [a, b, c, d, e, f, g], parseFlags9 fl, ofHex hx with
+    | some v, some br, some h, some fl, some fr => showClass (classifyRx v br h fl fr)
+    | _, _, _, _, _ => "bad-op"
   | ["peel", n, hx] =>
     match n.toNat?, ofHex hx with
     | some n, some fr =>
